@@ -82,4 +82,40 @@ theorem penDelta_order (caps : Caps) (pen next : Style) :
   rw [h]
   simp [penDelta, deltaPart, List.flatMap]
 
+private theorem ea1 (caps : Caps) (cn cl : CursorState) : evalAtom caps cn cl "cursorLast.visible" = cl.visible := rfl
+private theorem ea2 (caps : Caps) (cn cl : CursorState) : evalAtom caps cn cl "cursorNext.visible" = cn.visible := rfl
+private theorem ea3 (caps : Caps) (cn cl : CursorState) : evalAtom caps cn cl "caps.synchronizedUpdate" = caps.sync := rfl
+private theorem ea4 (caps : Caps) (cn cl : CursorState) :
+    evalAtom caps cn cl "cursorNext.row!=cursorLast.row" = decide (cn.row ≠ cl.row) := rfl
+private theorem ea5 (caps : Caps) (cn cl : CursorState) :
+    evalAtom caps cn cl "cursorNext.col!=cursorLast.col" = decide (cn.col ≠ cl.col) := rfl
+private theorem ea6 (caps : Caps) (cn cl : CursorState) :
+    evalAtom caps cn cl "cursorNext.style!=cursorLast.style" = decide (cn.style ≠ cl.style) := rfl
+private theorem wt0 (cn : CursorState) : writeToks cn "" = [] := rfl
+private theorem wt1 (cn : CursorState) : writeToks cn "decrst(cursorVisibility)" = [.decrst 25] := rfl
+private theorem wt2 (cn : CursorState) : writeToks cn "decset(synchronizedUpdate)" = [.decset 2026] := rfl
+private theorem wt3 (cn : CursorState) : writeToks cn "decrst(synchronizedUpdate)" = [.decrst 2026] := rfl
+private theorem wt4 (cn : CursorState) : writeToks cn "sgrReset" = [.sgr []] := rfl
+private theorem wt5 (cn : CursorState) : writeToks cn "showCursor()" = showCursorToks cn := rfl
+
+/-- **The writer model is the interpretation of writer.go's guarded writes**: `flush` = the prologue of
+    `WriteString` (every frame's first write is a `WriteString`), the body, the epilogue of `Flush`; or,
+    with nothing buffered, the first matching case of `Flush`'s cursor-only switch — guards, order and
+    written sequences as extracted from the source on this run. -/
+theorem flush_from_source (caps : Caps) (cn cl : CursorState) (body : List Tok) :
+    flush caps cn cl body = flushOf wsPrologue flushCursorOnly flushEpilogue caps cn cl body := by
+  have h1 : wsPrologue = [([(false, "cursorLast.visible")], "decrst(cursorVisibility)"),
+      ([(false, "caps.synchronizedUpdate")], "decset(synchronizedUpdate)")] := by decide +kernel
+  have h2 : flushCursorOnly = [([(true, "cursorNext.visible"), (false, "cursorLast.visible")], "decrst(cursorVisibility)"),
+      ([(true, "cursorNext.visible")], ""), ([(false, "cursorNext.row!=cursorLast.row")], "showCursor()"),
+      ([(false, "cursorNext.col!=cursorLast.col")], "showCursor()"), ([(false, "cursorNext.style!=cursorLast.style")], "showCursor()"),
+      ([], "")] := by decide +kernel
+  have h3 : flushEpilogue = [([], "sgrReset"), ([(false, "cursorNext.visible"), (false, "cursorLast.visible")], "showCursor()"),
+      ([(false, "caps.synchronizedUpdate")], "decrst(synchronizedUpdate)")] := by decide +kernel
+  rw [h1, h2, h3]
+  unfold flush flushOf
+  simp only [firstCase, runGuarded, evalGuard, List.flatMap_cons, List.flatMap_nil, List.all_cons, List.all_nil,
+    ea1, ea2, ea3, ea4, ea5, ea6, wt0, wt1, wt2, wt3, wt4, wt5, Bool.and_true, Bool.false_eq_true, if_false, if_true]
+  cases hcv : cn.visible <;> cases hlv : cl.visible <;> cases hs : caps.sync <;> simp
+
 end VaxisModel.Props.C01Facts
